@@ -251,3 +251,31 @@ func (x *g) genServerGadget() {
 		x.s.AddFeature("server-second")
 	}
 }
+
+// genPathOrderGadget gives a share of the generation-only designs a method whose payload travels in the request path
+// as three parameters of different kinds (an array of Int32, a Boolean, an array of Float32), one of which the design
+// also declares with Param(...), so that the declaration order differs from the order of the route: whatever walks the path parameters must
+// agree on one order, or the generated path builder formats a value with another parameter's conversion.
+func (x *g) genPathOrderGadget() {
+	gr := x.r.Derive(0x9a7401d)
+	if !gr.Chance(1, 3) {
+		return
+	}
+	for _, sv := range x.s.Services {
+		if sv.Name == "pathorder" {
+			return
+		}
+	}
+	arrOf := func(k string) *spec.Type {
+		return &spec.Type{Kind: spec.Array, Elem: &spec.Attr{Type: &spec.Type{Kind: k}}}
+	}
+	m := &spec.Method{Name: "lookup", NoSec: len(x.s.API.Security) > 0,
+		Payload: &spec.Attr{Type: &spec.Type{Kind: spec.Object, Attrs: []*spec.Attr{
+			{Name: "ids", Type: arrOf(spec.Int32)}, {Name: "label", Type: &spec.Type{Kind: spec.Boolean}}, {Name: "ratios", Type: arrOf(spec.Float32)}},
+			Required: []string{"ids", "label", "ratios"}}},
+		HTTP: &spec.HTTP{Routes: []spec.Route{{Verb: "GET", Path: "/{ids}/{label}/{ratios}"}},
+			Path:               []spec.Loc{{Attr: "ids"}, {Attr: "label"}, {Attr: "ratios"}},
+			ExplicitPathParams: []string{"label"}}}
+	x.s.Services = append(x.s.Services, &spec.Service{Name: "pathorder", BasePath: "/pathorder", Methods: []*spec.Method{m}})
+	x.s.AddFeature("path-param", "path-array", "path-params-declared-in-another-order")
+}
